@@ -51,8 +51,9 @@ CLAIMED['C13'] = (
     'ValueError (400) iff the header is present and not a single byte-range-spec, 206 with exactly [first, min(last, N-1)] / '
     'suffix clamp and matching Content-Range iff satisfiable, 416 with bytes */N otherwise, no other exception; '
     'OnDemandMedia.get (with the real get_http_range inlined) returns exactly blob[first..last] with that Content-Range and the '
-    'Content-Type of the extension, an empty 416, or 400 when the header is absent or unusable; plus the consumer slicing lemma '
-    'for the media-segment handler.',
+    'Content-Type of the extension, an empty 416, or 400 when the header is absent or unusable; the media-segment handler hands the '
+    'parser the full encoded length (also after video corruption moved the stream cursor) and serves a satisfiable range as exactly '
+    'that window of the encoded segment; plus the consumer slicing lemma.',
     'Trusted: pyvc encoding; opaque-string model of the header (predicates the code observes; int() of a split("-") part is '
     'non-negative); Blob.open_file and flask.make_response abstract. generate_media_segment consumes the tuple under a lemma only.',
     'contract-based deductive verification (AST->VC generator, z3 + cvc5), native replay by source extraction')
@@ -209,7 +210,10 @@ CLAIMED['C04'] = (
 
 CLAIMED['C03'] = (
     'DESIGN.md 4 C03',
-    'Reduced scope: the two post-encode offset equations. Proof for all positions/sizes/flags: after '
+    'Reduced scope. Mp4Atom.encode (two-pass encode): the box is written at the stream position it records, its size is header + '
+    'fields + the sizes of its children, the size field is back-patched with exactly that value, children follow each other without '
+    'gaps, the stream ends after the box and what was in the stream before is untouched (children by the same contract: induction '
+    'over the tree). The two post-encode offset equations, for all positions/sizes/flags: after '
     'TrackFragmentRunBox.post_encode the data-offset flag is set and base_data_offset + data_offset = moof.position + '
     'moof.size + mdat.header_size (the first payload byte), other flags unchanged; after '
     'SampleAuxiliaryInformationOffsetsBox.post_encode the single offset is senc.position + first sample offset - base data '
